@@ -55,6 +55,17 @@ package inspector
 //@   modifies r.Body, profile.ModelName, profile.ModelCapabilities, ghost backing, ghost released, ghost remaining
 //@   ensures ghost(r.Body).backing == 0 || !ghost(ghost(r.Body).backing).released
 
+// the chain the handlers run on every request: each inspector may replace the request body by a buffered copy and fills
+// in the profile; nothing else of the request is touched
+//@ func (c *Chain) Inspect
+//@   property C05
+//@   safety
+//@   requires c != nil && c.logger != nil && r != nil && (forall k int :: 0 <= k && k < len(c.inspectors) ==> c.inspectors[k] != nil)
+//@   modifies r.Body, ghost remaining, ghost backing, ghost released
+//@   loop 1 invariant profile != nil && fresh(profile)
+//@   loop 1 invariant forall p *domain.RequestProfile :: !fresh(p) ==> fieldSame(p, "SupportedBy")
+//@   ensures res1 == nil && res0 != nil && fresh(res0)
+
 // the debugging inspector used by the translators (writes log files; touches nothing the proofs talk about)
 //@ func (s *Simple) GetSessionHeader
 //@   property C13
